@@ -160,10 +160,17 @@ impl<'l> CelCompiler<'l> {
                         .into_bytecode()
                         .into_iter()
                         .chain(
-                            [PreResolvedCodePoint::JmpCond {
-                                when: JmpWhen::False,
-                                label: after_true_clause,
-                            }]
+                            [
+                                // the condition is tested for truthiness like every
+                                // other condition, a failed condition stays on the stack
+                                ByteCode::Test.into(),
+                                ByteCode::Dup.into(),
+                                PreResolvedCodePoint::JmpCond {
+                                    when: JmpWhen::False,
+                                    label: after_true_clause,
+                                },
+                                ByteCode::Pop.into(),
+                            ]
                             .into_iter(),
                         )
                         .chain(true_clause_bytecode.into_iter())
@@ -171,6 +178,14 @@ impl<'l> CelCompiler<'l> {
                             [
                                 PreResolvedCodePoint::Jmp { label: end_label },
                                 PreResolvedCodePoint::Label(after_true_clause),
+                                // a failed condition is the result of the expression
+                                ByteCode::Dup.into(),
+                                ByteCode::Not.into(),
+                                PreResolvedCodePoint::JmpCond {
+                                    when: JmpWhen::False,
+                                    label: end_label,
+                                },
+                                ByteCode::Pop.into(),
                             ]
                             .into_iter(),
                         )
